@@ -184,3 +184,65 @@ def _gen_verify(rng):
 
 _replay.GENERATORS.update({'evalscript_contained': _gen_eval, 'evalscript_wrapped': _gen_eval,
                            'verifyscript_contained': _gen_verify})
+
+
+# ================================================================== C06: step semantics
+from specs.interp import *
+
+
+@contract('bitcoin.core.scripteval:_CastToBigNum', name='cast_bignum_c', prop=P6)
+def cast_bignum_c(s: Bytes, err_raiser: Raiser) -> Int:
+    """operands longer than 4 bytes are rejected; otherwise the little-endian sign-magnitude value"""
+    option(callable=True, byte_level=True)
+    split(len(s), 0, 9, 'rest')
+    raises(EvalScriptError, when=len(s) > 4)
+    ensures(result == num4(s))
+
+
+@contract('bitcoin.core.scripteval:_CheckSig', name='checksig_named', prop=P6)
+def checksig_named(sig: Bytes, pubkey: Bytes, script: Bytes(cls=CScript), txTo: Any, inIdx: Int,
+                   err_raiser: Any) -> Bool:
+    """ASSUMED: OpenSSL verification is one uninterpreted predicate, the same in code and reference"""
+    option(callable=True, assumed=True)
+    ensures(result == checksig_ok(sig, pubkey, script, inIdx))
+
+
+@contract('bitcoin.core.script:FindAndDelete', name='find_and_delete_named', prop=P6)
+def find_and_delete_named(script: Bytes(cls=CScript), sig: Bytes(cls=CScript)) -> Bytes(cls=CScript):
+    """ASSUMED for C06: FindAndDelete is the uninterpreted function fad (specified under C03)"""
+    option(callable=True, assumed=True)
+    raises(CScriptInvalidError)
+    ensures(result == fad(script, sig))
+
+
+@contract('bitcoin.core.scripteval:_EvalScript', name='evalscript_step', prop=P6)
+def evalscript_step(stack: ListOf(Bytes), scriptIn: Bytes(cls=CScript), txTo: Any, inIdx: Int,
+                    flags: FlagSet(**MS_FLAGS)):
+    """step simulation: from any state within the limits, one operation of the main loop fails exactly
+    when the reference step fails and otherwise produces exactly the reference successor state
+    (CHECKMULTISIG / CHECKMULTISIGVERIFY excluded)"""
+    requires(len(stack) <= 1000)
+    loopvar(0, 'altstack', ListOf(Bytes))
+    loopvar(0, 'vfExec', ListOf(Bool))
+    loopvar(0, 'nOpCount', ListOf(Int))
+    invariant(0, len(nOpCount) == 1 and 0 <= nOpCount[0] and nOpCount[0] <= 201)
+    invariant(0, len(stack) + len(altstack) <= 1000)
+    invariant(0, 0 <= pbegincodehash and pbegincodehash <= len(scriptIn))
+    split_op(0)
+    option(shards=16, prefer=['cast_bignum_c', 'checksig_named', 'find_and_delete_named'])
+    step_raises(0, EvalScriptError, when=sop == 0xae or sop == 0xaf or step_fail(
+        sop, sop_data, head(stack), head(altstack), head(vfExec), head(nOpCount[0]), scriptIn,
+        head(pbegincodehash), inIdx, se.SCRIPT_VERIFY_DISCOURAGE_UPGRADABLE_NOPS in flags))
+    step_raises(0, CScriptInvalidError, when=sop == 0xac or sop == 0xad or sop == 0xae or sop == 0xaf)
+    step_ensures(0, sop == 0xae or sop == 0xaf or not step_fail(
+        sop, sop_data, head(stack), head(altstack), head(vfExec), head(nOpCount[0]), scriptIn,
+        head(pbegincodehash), inIdx, se.SCRIPT_VERIFY_DISCOURAGE_UPGRADABLE_NOPS in flags))
+    step_ensures(0, sop == 0xae or sop == 0xaf or stack == step_stack(
+        sop, sop_data, head(stack), head(altstack), head(vfExec), scriptIn, head(pbegincodehash), inIdx))
+    step_ensures(0, sop == 0xae or sop == 0xaf or (
+        altstack == step_alt(sop, head(stack), head(altstack), head(vfExec))
+        and vfExec == step_vf(sop, head(stack), head(vfExec))
+        and nOpCount[0] == step_nop(sop, head(nOpCount[0]))
+        and pbegincodehash == step_cs(sop, head(vfExec), head(pbegincodehash), sop_pc)))
+    raises(EvalScriptError)
+    raises(CScriptInvalidError)
